@@ -620,11 +620,11 @@ func c38Enabled(cfg c38Cfg, ntoks int, routes []c38Route) []c38Ev {
 
 type c38Result struct {
 	summary string // model state summary after the history (part of the outcome signature)
-	canon  string
-	ntoks  int
-	viol   []c38Viol
-	obs    []string
-	broken string // replay itself failed (harness problem)
+	canon   string
+	ntoks   int
+	viol    []c38Viol
+	obs     []string
+	broken  string // replay itself failed (harness problem)
 }
 
 // c38Replay runs one history in its own bubble; violations are those of the LAST event.
